@@ -78,8 +78,6 @@ def run(ctx, rep):
             continue
         kf = FnCtx(k)
         somes = [bb for bb, i, s in kf.aggregates("Option", "Some")]
-        if not somes:
-            continue
 
         def stale(op, a, c):
             a0 = E.strip_casts(a)
@@ -89,6 +87,17 @@ def run(ctx, rep):
             if E.is_call(c0, "Sub::sub") and E.mentions_field(c0, "last_communication_timestamp") and E.mentions_field(a, "lease_duration"):
                 return {"Lt": "true", "Ge": "false"}.get(op)
             return None
+        if not somes:
+            # `.find(|p| now - p.last > p.lease)`: the closure's value is the comparison itself
+            ret = E.strip_casts(kf.eb.place(Place([0, []])))
+            c = cmp_norm(ret)
+            if c is None or not (E.mentions_field(ret, "last_communication_timestamp") or E.mentions_field(ret, "lease_duration")):
+                continue
+            n += 1
+            verdict = stale(*c) or stale({"Lt": "Gt", "Gt": "Lt", "Le": "Ge", "Ge": "Le"}.get(c[0], c[0]), c[2], c[1])
+            adder(rep, k)("R17b", "a participant is selected for removal only when now - last_communication > lease_duration", verdict == "true",
+                          "the selection predicate is `%s`: not the strict lease comparison (a participant could be dropped before its lease elapsed)" % kf.show(ret)[:120])
+            continue
         g = kf.cmp_guards(stale)
         n += 1
         adder(rep, k)("R17b", "a participant is selected for removal only when now - last_communication > lease_duration",
